@@ -45,8 +45,39 @@ pub fn dec(args: &[&str]) -> String {
     out
 }
 
+/// encseq <cmd:sid:len:seed>... : frames encoded one after the other into ONE output buffer (payload byte i = seed + i mod 256)
+pub fn encseq(args: &[&str]) -> String {
+    let mut buf = BytesMut::new();
+    let mut verdicts = String::new();
+    for tok in args {
+        let p: Vec<&str> = tok.split(':').collect();
+        if p.len() != 4 {
+            verdicts.push_str("BADTOK ");
+            continue;
+        }
+        let c: u8 = p[0].parse().unwrap();
+        let sid: u32 = p[1].parse().unwrap();
+        let len: usize = p[2].parse().unwrap();
+        let seed: usize = p[3].parse().unwrap();
+        let data: Vec<u8> = (0..len).map(|i| ((seed + i) & 255) as u8).collect();
+        let f = Frame::with_data(Command::from(c), sid, Bytes::from(data));
+        match FrameCodec.encode(f, &mut buf) {
+            Ok(()) => verdicts.push_str("ok "),
+            Err(_) => verdicts.push_str("err "),
+        }
+    }
+    let mut sum: u64 = 0;
+    let mut fnv: u64 = 2166136261;
+    for b in buf.iter() {
+        sum = (sum + *b as u64) & 0xFFFF_FFFF;
+        fnv = ((fnv ^ (*b as u64)).wrapping_mul(16777619)) & 0xFFFF_FFFF;
+    }
+    format!("{}| len={} sum={} fnv={}", verdicts, buf.len(), sum, fnv)
+}
+
 pub fn dispatch(drv: &str, args: &[&str]) -> Option<String> {
     match drv {
+        "encseq" => Some(encseq(args)),
         "enc" => Some(enc(args)),
         "dec" => Some(dec(args)),
         _ => None,
